@@ -67,6 +67,23 @@ theorem dilute_gamma_zero_partial (c : ℝ) :
   have := (dilute_fixed_point_partial 1 c).sub_const c
   simpa using this
 
+/-- … and it is reached at first order in the density: `|γ_out| = |h − c| ≤ 2 ρ c²` as soon as `ρ|c| ≤ 1/2`.  (The harness evaluates the
+self-consistency function at `γ = 0` for densities down to 1e-20 and requires it to be `O(ρ)`; a rearrangement of the matrix step
+that cancels catastrophically at small `ρ` fails that without any solve.) -/
+theorem dilute_gamma_order_rho_partial (ρ c : ℝ) (h : |ρ * c| ≤ 1 / 2) :
+    |1 * c * 1 / (1 - ρ * 1 * c) - c| ≤ 2 * |ρ| * c ^ 2 := by
+  have hpos : (1 : ℝ) / 2 ≤ 1 - ρ * c := by
+    have := (abs_le.mp h).2; linarith
+  have hne : 1 - ρ * c ≠ 0 := by linarith
+  have e : 1 * c * 1 / (1 - ρ * 1 * c) - c = ρ * c ^ 2 / (1 - ρ * c) := by
+    have h1 : (1 - ρ * 1 * c) = (1 - ρ * c) := by ring
+    rw [h1, one_mul, mul_one, div_sub' hne, div_left_inj' hne]
+    ring
+  rw [e, abs_div, abs_mul, abs_of_pos (by linarith : (0 : ℝ) < 1 - ρ * c), abs_of_nonneg (sq_nonneg c)]
+  rw [div_le_iff₀ (by linarith)]
+  have hnn : 0 ≤ |ρ| * c ^ 2 := mul_nonneg (abs_nonneg _) (sq_nonneg _)
+  nlinarith
+
 /-- and at `γ = 0` the closures give the dilute-limit forms: `g = 1 + c = e^{-u/kT}` (PY, HNC), `1 − u/kT` (MSA),
 `0` inside a flagged core -/
 theorem dilute_closures_partial (u σ r : ℝ) :
